@@ -1,7 +1,8 @@
 (* C02 - the consumer delivers every message once, in offset order, never concurrently.
    Theorem statements only; proofs live in Proofs/ConsumerC02*.v.  Model: Model/Consumer.v (afkak/consumer.py:290-1131),
    specification vocabulary (monitors, honest broker over a log): Model/ConsumerLog.v. *)
-From AV Require Import Base.Util Model.Consumer Model.ConsumerLog Proofs.ConsumerC02Extract Proofs.ConsumerC02ReqRun.
+From AV Require Import Base.Util Model.Consumer Model.ConsumerLog Proofs.ConsumerC02Extract Proofs.ConsumerC02ReqRun
+  Proofs.ConsumerC02PwRun.
 
 (* At most one offset/fetch request is outstanding and at most one refetch timer is armed, at every moment of every run:
    the monitor REQ (Model/ConsumerLog.v: rejects a request sent while one is outstanding, a refetch timer armed while
@@ -13,6 +14,20 @@ Theorem C02_single_fetch : forall fuel c maxatt buf evs,
   = Some (req_abs (fst (run_events fuel (init c maxatt buf) evs))).
 Proof. exact req_monitor_accepts. Qed.
 Print Assumptions C02_single_fetch.
+
+(* The processor is never invoked while its previous invocation has not returned or the Deferred it returned is still
+   pending, and never with an empty block: the monitor PW (Model/ConsumerLog.v; it reconstructs the processor-call
+   window from the plan oracle, OCallProc, the return of an API call made from inside the processor, OCancelProc and
+   EProcFire, and rejects an OCallProc outside the idle state) accepts the run of the model for every configuration
+   with auto_commit_every_n >= 0 (checked by the constructor) and every event list - processors that return, raise,
+   return Deferreds that fire or fail at any later moment, call stop() or commit() re-entrantly; replies arriving
+   during processing; stops, shutdowns, restarts - that does not exhaust the interpreter's fuel. *)
+Theorem C02_no_overlap : forall fuel c maxatt buf evs,
+  0 <= c_acn c -> run_fuel_ok fuel c maxatt buf evs = true ->
+  mon_run pw_ev pw_out pw0 (model_obs fuel c maxatt buf evs)
+  = Some (pw_abs None (fst (run_events fuel (init c maxatt buf) evs))).
+Proof. exact pw_monitor_accepts. Qed.
+Print Assumptions C02_no_overlap.
 
 (* The extraction loop against an honest broker (a contiguous run of the log starting at or before the first entry
    >= the fetch offset, cut anywhere): for EVERY log with strictly increasing offsets (gaps allowed) and every start
@@ -60,6 +75,16 @@ Example req_ex :
   mon_run req_ev req_out q0 (model_obs 30 c 0 4096 evs) = Some (mkQ (Some 3) false (Some (Some 5)) None) /\
   mon_run req_ev req_out q0 (model_obs 30 c 0 4096 (evs ++ [ECommitOk; EReqFail 1])) = Some (mkQ None true None (Some 5)).
 Proof. vm_compute. repeat split; reflexivity. Qed.
+(* a slow processor, a reply parked behind it, the Deferred fires, the next block follows: PW tracks the window *)
+Example overlap_ex :
+  let c := mkCfg true 2 false 0 None (-1) in
+  let evs := [EStart 0; EFetchOk [0; 1; 2] false; EFireRetry; EFetchOk [3] false; EProcFire true] in
+  run_fuel_ok 30 c 0 4096 evs = true /\
+  mon_run pw_ev pw_out pw0 (model_obs 30 c 0 4096 evs) = Some (mkPW (PPend 2) [] (Some 1)).
+Proof. vm_compute. split; reflexivity. Qed.
+Example pw_rejects_overlap :
+  mon_run pw_ev pw_out pw0 [(EFetchOk [0; 1] false, [OCallProc [0]; OCallProc [1]])] = None.
+Proof. reflexivity. Qed.
 (* the monitor is not trivially accepting: a second fetch request while one is outstanding is rejected *)
 Example req_rejects : mon_run req_ev req_out q0 [(EStart 0, [OFetch 0 4096; OFetch 0 4096])] = None.
 Proof. reflexivity. Qed.
